@@ -133,7 +133,8 @@ Spec == Init /\ [][Next]_vars /\ WF_vars(Next)
    include_unreachable = True makes the code do. *)
 
 \* least fixpoint of a monotone set transformer on blocks, by at most n rounds
-Lfp(S, k, F(_)) == LET it[i \in 0..k] == IF i = 0 THEN S ELSE it[i - 1] \cup F(it[i - 1]) IN it[k]
+\* (the previous iterate is named once: TLC re-evaluates a recursive function at every application)
+Lfp(S, k, F(_)) == LET it[i \in 0..k] == IF i = 0 THEN S ELSE LET prev == it[i - 1] IN prev \cup F(prev) IN it[k]
 
 \* x is read on some path from b before being reassigned
 PathLive(x) ==
